@@ -613,7 +613,7 @@ def run(chk, replay=None):
 
     if not st["build_ok"]:
         broken.append("theorems of PropC08.v no longer check:\n" + st["log"][-3000:])
-    if broken and not chk.violations and not chk.known_hits:
+    if broken and not chk.violations:
         chk.fail("broken.txt", "\n\n".join(broken), no_input=True)
 
     # ---- coverage
